@@ -1,6 +1,7 @@
 import Yomm2.Props.C13
 import Yomm2.Proofs.RoundTrip
 import Yomm2.Proofs.RoundTripInstall
+import Yomm2.Proofs.RoundTripCompile
 /-!
 # C13 — the encoded v-tables decode, in place, to the v-tables update built
 -/
@@ -84,5 +85,22 @@ theorem resolve_depends_on_data_and_ss (a b : Installed) (hd : a.data = b.data) 
   unfold resolve
   rw [hs]
   simp only [huni, hfirst]
+
+/-- **C13 for every registry**: after `update` (compile + install) on a registry without inheritance
+    cycles whose methods all have a virtual parameter, if the numbers fit the 16-bit fields (`Fits16`: group
+    and method indices below 2^14, definitions per method and first slots below 2^15), then the dispatch data
+    emitted by the generator, once decoded, makes every call resolve exactly as after `update`: the decoded
+    image has the same words, and `resolve` returns the same function for every method and every tuple of
+    v-table pointers — uni- and multi-methods, error cells, classes whose v-table does not start at slot
+    0, classes without entries -/
+theorem C13_calls_after_decode_as_after_update (proj : Nat → Nat) (reg : Registry)
+    (hwf : GraphProofs.WF proj reg.classes reg.methods)
+    (c : Compiled) (hc : compile proj reg = .ok c) (inst : Installed) (hinst : install c = .ok inst)
+    (har : ∀ m ∈ c.methods, 1 ≤ m.vp.length) (hfit : Fits16 c)
+    (cells : List Nat) (hcells : cells.length = c.vtbl.length) (hnd : cells.Nodup) :
+    ∃ d, decode (encode c) (msOf c) cells = .ok d ∧ d.toInstalled.vptr = inst.vptr ∧
+      ∀ (mi : Nat) (args : List (Kind × Int)), resolve d.toInstalled mi args = resolve inst mi args := by
+  obtain ⟨d, hd, hdata, hvptr, hss⟩ := round_trip_after_compile proj reg hwf c hc inst hinst har hfit cells hcells hnd
+  exact ⟨d, hd, hvptr, fun mi args => resolve_depends_on_data_and_ss _ _ hdata hss mi args⟩
 
 end Yomm2.Props.C13
